@@ -9,6 +9,7 @@ import (
 	"net/url"
 	"os"
 	"path/filepath"
+	"runtime"
 	"strings"
 	"sync"
 	"sync/atomic"
@@ -17,6 +18,7 @@ import (
 	"github.com/bfenetworks/bfe/bfe_basic"
 	"github.com/bfenetworks/bfe/bfe_http"
 	"github.com/bfenetworks/bfe/bfe_module"
+	"github.com/bfenetworks/bfe/bfe_route"
 
 	"verifharness/e2e"
 	"verifharness/vkit"
@@ -96,7 +98,7 @@ func c15WriteGslb(dir string, ver int, addr string, port int) error {
 }
 
 func c15(r *vkit.Run) {
-	r.SetRule("full in-process BFE (HTTP + HTTPS) serving keep-alive HTTP/1, HTTPS and HTTP/2 clients while 5 reloader goroutines install versioned server-data (host/route/cluster_conf) and gslb/cluster-table configurations (two of them reloading the same family concurrently) and reload TLS rules/certs and the session-ticket key; every name embeds its version; harness filters at 5 callback points log product, cluster, SvrDataConf pointer, sub-cluster and backend per request; offline check: one version per family per request, same snapshot pointer at all request-phase points; race detector scoped to reports with a reload frame; bfe panic counters must stay 0. Non-trivial = request processed while the installed version changed since the previous request of that client; distinct = (server-data version, gslb version) pair observed")
+	r.SetRule("full in-process BFE (HTTP + HTTPS) serving keep-alive HTTP/1, HTTPS and HTTP/2 clients while 5 reloader goroutines install versioned server-data (host/route/cluster_conf) and gslb/cluster-table configurations (two of them reloading the same family concurrently) and reload TLS rules/certs and the session-ticket key; every name embeds its version; harness filters at 5 callback points log product, cluster, SvrDataConf pointer, sub-cluster and backend per request; two pollers spin on GetServerConf() and require host, route and cluster_conf versions of every installed snapshot to come from one load; offline check: one version per family per request, same snapshot pointer at all request-phase points; race detector scoped to reports with a reload frame; bfe panic counters must stay 0. Non-trivial = request processed while the installed version changed since the previous request of that client; distinct = (server-data version, gslb version) pair observed")
 	r.RaceScope("ConfReload", "SessionTicketKeyReload", "tlsConfLoad", "BalTableReload", "setTransports")
 	bs := e2e.NewBackendSet()
 	defer bs.Close()
@@ -217,6 +219,43 @@ func c15(r *vkit.Run) {
 		go reloader(i, f)
 	}
 
+	// snapshot pollers: the accessor every request takes its configuration from must only
+	// ever return completely installed server data (host, route and cluster tables of ONE load)
+	var wgP sync.WaitGroup
+	var polls, ptrChanges int64
+	var mixMu sync.Mutex
+	mixed := map[string]int{}
+	for p := 0; p < 2; p++ {
+		wgP.Add(1)
+		go func() {
+			defer wgP.Done()
+			var last *bfe_route.ServerDataConf
+			for n := 0; atomic.LoadInt32(&done) == 0; n++ {
+				sc := srv.Srv.GetServerConf()
+				if sc != last {
+					last = sc
+					atomic.AddInt64(&ptrChanges, 1)
+					if sc == nil || sc.HostTable == nil || sc.ClusterTable == nil {
+						mixMu.Lock()
+						mixed["nil-table"]++
+						mixMu.Unlock()
+						continue
+					}
+					hv, cv := sc.HostTable.GetVersions(), sc.ClusterTable.GetVersions()
+					if hv.HostTag != hv.ProductRoute || hv.HostTag != cv.ClusterConfVer {
+						mixMu.Lock()
+						mixed[fmt.Sprintf("host=%s route=%s cluster_conf=%s", hv.HostTag, hv.ProductRoute, cv.ClusterConfVer)]++
+						mixMu.Unlock()
+					}
+				}
+				atomic.AddInt64(&polls, 1)
+				if n%64 == 63 {
+					runtime.Gosched()
+				}
+			}
+		}()
+	}
+
 	var statusMu sync.Mutex
 	status := map[string]int{}
 	var wgC sync.WaitGroup
@@ -286,6 +325,13 @@ func c15(r *vkit.Run) {
 	wgC.Wait()
 	atomic.StoreInt32(&done, 1)
 	wgR.Wait()
+	wgP.Wait()
+	r.Count("snapshot_polls", atomic.LoadInt64(&polls))
+	r.Count("snapshot_pointer_changes_seen", atomic.LoadInt64(&ptrChanges))
+	for k, n := range mixed {
+		r.Violation("installed-snapshot-mixes-loads", fmt.Sprintf("GetServerConf() returned server data assembled from different loads: %s (%d times)", k, n), map[string]interface{}{"versions": k})
+		break
+	}
 
 	r.Count("reloads", atomic.LoadInt64(&reloads))
 	r.Count("reload_errors", atomic.LoadInt64(&reloadErrs))
